@@ -18,7 +18,7 @@ from typing import Any, Dict, List, Optional, Set, Tuple
 from ..cfg import cfg_of
 from ..consteval import ConstEval, Unknown, OpaqueBytes
 from ..flow import Sym, fpaths
-from ..model import FuncInfo, attr_chain, norm, walk_no_nested
+from ..model import FuncInfo, attr_chain, norm, walk_no_nested, AnalysisError
 from ..report import Checker
 from .forward import forward_sites_check, opaque_relay_check, eval_response_constant
 
@@ -425,6 +425,36 @@ def run(ch: Checker) -> None:
     # ---------------- C08.5
     forward_sites_check(ch, 'C08.5', want_via=False)
     opaque_relay_check(ch, 'C08.6')
+    ch.rule('C08.10', 'the 407 (and every other rejection response) is queued before anything that can fail on the request\'s own bytes: in the HttpProtocolException handler of handle_data no strict text_() / .decode() '
+                      'of request attributes filled from the wire precedes the queue() of e.response() (a request target with non-UTF-8 octets must still get its 407)', 1)
+    from .c09 import WIRE_ATTRS
+    hd8 = prog.own_method('HttpProtocolHandler', 'handle_data')
+    n10 = 0
+    for t8 in walk_no_nested(hd8.node):
+        if not isinstance(t8, ast.Try):
+            continue
+        for h8 in t8.handlers:
+            names8 = [norm(x) for x in (h8.type.elts if isinstance(h8.type, ast.Tuple) else [h8.type])] if h8.type is not None else []
+            if not any(nm.split('.')[-1] == 'HttpProtocolException' for nm in names8):
+                continue
+            n10 += 1
+            bad8 = None
+            for s8 in h8.body:
+                has_queue = any(isinstance(x, ast.Call) and (attr_chain(x.func) or '').endswith('.queue') for x in ast.walk(s8))
+                for c8 in ast.walk(s8):
+                    if isinstance(c8, ast.Call) and (attr_chain(c8.func) == 'text_' or (isinstance(c8.func, ast.Attribute) and c8.func.attr == 'decode')):
+                        arg8 = c8.args[0] if c8.args and attr_chain(c8.func) == 'text_' else (c8.func.value if isinstance(c8.func, ast.Attribute) else None)
+                        wire8 = [attr_chain(n_) for n_ in ast.walk(arg8) if isinstance(n_, ast.Attribute) and (attr_chain(n_) or '').split('.')[-1] in WIRE_ATTRS and '.request.' in (attr_chain(n_) or '')] if arg8 is not None else []
+                        lenient8 = any(k.arg == 'errors' and isinstance(k.value, ast.Constant) and k.value.value != 'strict' for k in c8.keywords) or (len(c8.args) >= 3 and attr_chain(c8.func) == 'text_')
+                        if wire8 and not lenient8 and bad8 is None:
+                            bad8 = 'a strict decode of %s (%s) runs before the rejection response is queued: for a request whose target or method carries octets that are not UTF-8 it raises UnicodeDecodeError inside the handler, ' \
+                                   'the response is never queued and the client sees a bare end-of-stream instead of its 407' % (wire8[0], norm(c8)[:50])
+                if has_queue:
+                    break
+            ch.check(bad8 is None, 'C08.10', hd8, 'rejection handler', 'nothing that can fail on the request\'s bytes precedes queue(e.response())', bad8 or '', line=h8.lineno)
+    if n10 == 0:
+        raise AnalysisError('anchor vanished: handle_data has no HttpProtocolException handler')
+    ch.import_rules('C07', {'C07.2': 'C08.9'}, 'after the 407 nothing more of the unauthenticated client is read (and shown to the plugins) only if read interest is dropped while the final flush is pending')
     ch.import_rules('C09', {'C09.1': 'C08.7'}, 'the auth plugin is consulted before any user plugin only if the order in which plugins are listed survives loading')
 
 
